@@ -90,9 +90,15 @@ void PSC::BuiltinFnSETDATE::run(PSC::Context &ctx) {
     PSC::Variable *yearVar = ctx.getVariable("Year");
     if (yearVar == nullptr || yearVar->type != PSC::DataType::INTEGER) std::abort();
 
-    day day(dayVar->get<PSC::Integer>().value);
-    month month(monthVar->get<PSC::Integer>().value);
-    year year(yearVar->get<PSC::Integer>().value);
+    int_t dayVal = dayVar->get<PSC::Integer>().value;
+    int_t monthVal = monthVar->get<PSC::Integer>().value;
+    int_t yearVal = yearVar->get<PSC::Integer>().value;
+    if (dayVal < 1 || dayVal > 31 || monthVal < 1 || monthVal > 12 || yearVal < -32767 || yearVal > 32767)
+        throw PSC::RuntimeError(PSC::errToken, ctx, "Invalid Date!");
+
+    day day((unsigned int) dayVal);
+    month month((unsigned int) monthVal);
+    year year((int) yearVal);
 
     year_month_day ymd(year, month, day);
     if (!ymd.ok())
